@@ -5,7 +5,7 @@ d=$1; shift
 cd /verif
 props="$@"
 [ -n "$props" ] || props=$(python3 -c "import json;print(' '.join(c['property_id'] for c in json.load(open('MANIFEST.json'))['checks']))")
-d=$(cd "$d" && pwd); git -C /repo apply "$d/patch.diff" || { echo "APPLY-FAILED $d"; exit 3; }
+d=$(cd "$d" && pwd); git -C /repo apply "$d/${PATCH:-patch.diff}" || { echo "APPLY-FAILED $d"; exit 3; }
 fired=""
 for p in $props; do
   out=$(./run.sh $p quick 2>&1); rc=$?
